@@ -288,3 +288,83 @@ Theorem c13_descriptor_grammar_example :
           [E_MAP_ELEMENT [97%N]; E_MAP_ELEMENT [98%N]; E_LIST_ELEMENT 2; E_LIST_APPEND; E_MAP] T_ASSIGN [120%N].
 Proof. exact denotes_example. Qed.
 Print Assumptions c13_descriptor_grammar_example.
+
+(* ------------------------------------------------------------------ the hash table behind a map
+   PropModel keeps the entries of a map node as an insertion-ordered association list and reaches
+   them with [lookup], [update], [remove_key] and [kv ++ [(k, v)]].  The C code keeps them in a
+   chained hash table (chains ordered by (hash value, strcmp), grown and rehashed in place by
+   map_expand): LV.PropTree.HashModel, as coded, for an ARBITRARY hash function h : bytes -> N
+   (nothing is assumed about h; the code uses CRC-32C, [crc32c]).  [a_step] is what descend_set /
+   descend_get / delete_at do to the entries of one map node (set = look-up, then update or append;
+   look-up; delete = look-up, then remove_key), [h_step] what map_subtree(add) / map_subtree(no add)
+   / map_get / map_delete do to (vpm_hash_table, vpm_count).  For every h and every sequence of such
+   operations on one map, started empty, the table answers "found" exactly when the association list
+   does, and the two states stay related by Rep: same number of keys, the keys of the table are a
+   permutation of the keys of the list, every chain strictly sorted and in the bucket its hash
+   selects.  This discharges the clause "hash chains abstracted" per map node; the values stored
+   under the keys and the order list (vnaproperty_keys) are the association list itself. *)
+Require Import Permutation Sorted.
+Require Import LV.PropTree.HashModel LV.PropTree.HashProofs.
+
+Theorem c13_hash_table_refines_assoc_list :
+  forall (h : bytes -> N) (A : Type) (ops : list (hop * A)) kv fa s fh,
+  a_run [] ops = (kv, fa) -> h_run h h_empty (map fst ops) = (s, fh) ->
+  fh = fa /\ Rep h kv s.
+Proof. exact hash_refines_assoc_lemma. Qed.
+Print Assumptions c13_hash_table_refines_assoc_list.
+
+(* one operation from any related pair of states (the induction step; also covers maps that were
+   built by other means, e.g. copy) *)
+Theorem c13_hash_table_step :
+  forall h A (kv : list (bytes * A)) s ov kv' fa s' fh, Rep h kv s ->
+  a_step kv ov = (kv', fa) -> h_step h s (fst ov) = (s', fh) -> fh = fa /\ Rep h kv' s'.
+Proof. exact Rep_step_eq. Qed.
+Print Assumptions c13_hash_table_step.
+
+(* what Rep gives: map_get / map_find_anchor find exactly the keys of the list; vpm_count is its length *)
+Theorem c13_hash_table_finds_exactly_the_keys :
+  forall h A (kv : list (bytes * A)) t count k, Rep h kv (t, count) ->
+  (match t with [] => false | _ :: _ => t_found h k t end)
+  = (match lookup k kv with Some _ => true | None => false end).
+Proof. exact Rep_found. Qed.
+Print Assumptions c13_hash_table_finds_exactly_the_keys.
+
+Theorem c13_hash_table_keys :
+  forall h A (kv : list (bytes * A)) t count, Rep h kv (t, count) ->
+  count = length kv /\ Permutation (concat t) (map fst kv).
+Proof. exact Rep_keys. Qed.
+Print Assumptions c13_hash_table_keys.
+
+(* map_expand (any count, any table whose chains are sorted and placed): the in-place rehash keeps
+   every key, re-sorts every chain and ends with the new size *)
+Theorem c13_map_expand_keeps_keys :
+  forall h count t, table_ok h t -> NoDup (concat t) -> (length t <= new_size count)%nat ->
+  table_ok h (t_expand h count t) /\
+  Permutation (concat (t_expand h count t)) (concat t) /\
+  length (t_expand h count t) = new_size count.
+Proof. exact expand_keeps_keys. Qed.
+Print Assumptions c13_map_expand_keeps_keys.
+
+(* non-vacuity: all keys colliding (constant hash), and growth 0 -> 11 -> 33 buckets under CRC-32C *)
+Theorem c13_hash_table_example_all_collide :
+  let h := fun _ : bytes => 0%N in
+  snd (h_run h h_empty (map fst const_script)) = snd (a_run [] const_script) /\
+  snd (a_run [] const_script)
+    = [false; false; true; false; true; true; false; false; false; true; true; false] /\
+  map fst (fst (a_run [] const_script)) = [[98%N]; [99%N; 1%N]; [97%N]] /\
+  fst (h_run h h_empty (map fst const_script))
+    = ([[97%N]; [98%N]; [99%N; 1%N]] :: repeat [] 10, 3%nat).
+Proof. exact hash_refines_const_hash. Qed.
+Print Assumptions c13_hash_table_example_all_collide.
+
+(* the chain order is what look-up relies on: in an unsorted chain a stored key is not found *)
+Theorem c13_unsorted_chain_hides_key_refuted :
+  exists (h : bytes -> N) (t : table) (k : bytes),
+    ~ StronglySorted (fun a b => ecmp h a b = Lt) (nth (bucket h (length t) k) t []) /\
+    In k (concat t) /\
+    In k (nth (bucket h (length t) k) t []) /\
+    (forall j e, (j < length t)%nat -> In e (nth j t []) -> bucket h (length t) e = j) /\
+    NoDup (concat t) /\
+    t_found h k t = false.
+Proof. exact sorted_needed_refuted. Qed.
+Print Assumptions c13_unsorted_chain_hides_key_refuted.
